@@ -256,11 +256,112 @@ func c16joinEval(c c16joinCase) []ev.Finding {
 	return out
 }
 
+// ---- many statements, and a query after a query that failed ------------------------------------------------------------
+
+// c16longPool: the pool plus statements with calls without arguments, signs and groups (whatever a parser counts per
+// statement has to be given back at its end).
+var c16longPool = append(append([]string{}, c16pool...), "SELECT a FROM m WHERE time > now() - 1h", "SELECT count(x), f() FROM m WHERE (a = 1) AND -(b) < 2", "DELETE FROM m WHERE time < now()")
+
+type c16longCase struct {
+	Long int `json:"long"`           // number of statements, taken round-robin from c16longPool
+	Sep  int `json:"sep"`            // index into c16goodSeps
+	Only int `json:"only,omitempty"` // k > 0: every statement is c16longPool[len-k] (the statements with calls and groups)
+}
+
+func c16longEval(c c16longCase) []ev.Finding {
+	var parts []string
+	for i := 0; i < c.Long; i++ {
+		if c.Only > 0 {
+			parts = append(parts, c16longPool[len(c16longPool)-c.Only])
+		} else {
+			parts = append(parts, c16longPool[i%len(c16longPool)])
+		}
+	}
+	fs := c16joinEval(c16joinCase{Query: strings.Join(parts, c16goodSeps[c.Sep]), Parts: parts})
+	for i := range fs {
+		fs[i].Case = c
+		fs[i].Witness = fmt.Sprintf("%d statements joined by %q", c.Long, c16goodSeps[c.Sep])
+		fs[i].Sig = "long-query:" + fs[i].Sig
+		if len(fs[i].Detail) > 400 {
+			fs[i].Detail = fs[i].Detail[:400]
+		}
+	}
+	return fs
+}
+
+// c16failing: texts that the parser rejects, for different reasons and at different points: a missing operand, a
+// missing separator, and statements that are complete but rejected by a check made after the last token was looked at.
+var c16failing = []string{"DELETE", "SELECT", "SELECT a FROM", "SELECT a FROM m ORDER BY a", "SELECT a FROM m tz('nowhere')", "SELECT a FROM m fill(1)",
+	"CREATE CONTINUOUS QUERY cq ON d BEGIN SELECT mean(x) INTO t FROM m END", "SELECT a = 1 FROM m", "SELECT a FROM m SHOW DATABASES", "SELECT a FROM m WHERE", "SELECT a FROM m;;;x", "SHOW TAG VALUES WITH KEY =", "'"}
+
+type c16afterCase struct {
+	After int   `json:"after"` // index into c16failing: the query parsed just before
+	Good  []int `json:"good"`  // pool indices of the query under test
+}
+
+// c16afterEval: the package-level ParseQuery is a function of its argument. It is called with a text it rejects and
+// then, several times, with a good query; every answer must be the good query's statements as fresh parsers read them.
+func c16afterEval(c c16afterCase) []ev.Finding {
+	var parts []string
+	var want []influxql.Statement
+	for _, i := range c.Good {
+		if i < 0 || i >= len(c16pool) {
+			return nil
+		}
+		st, err := influxql.NewParser(strings.NewReader(c16pool[i])).ParseStatement()
+		if err != nil {
+			return nil
+		}
+		parts = append(parts, c16pool[i])
+		want = append(want, st)
+	}
+	good := strings.Join(parts, "; ")
+	wit := fmt.Sprintf("ParseQuery(%q) and then ParseQuery(%q)", c16failing[c.After], good)
+	for round := 0; round < 4; round++ {
+		var q *influxql.Query
+		var err error
+		if p, st := try(func() {
+			_, _ = influxql.ParseQuery(c16failing[c.After])
+			q, err = influxql.ParseQuery(good)
+		}); p != nil {
+			return []ev.Finding{{Sig: "panic:ParseQuery", Witness: wit, Detail: fmt.Sprint(p) + st, Case: c, Rank: len(good)}}
+		}
+		bad := ""
+		switch {
+		case err != nil:
+			bad = "rejected: " + err.Error()
+		case len(q.Statements) != len(want):
+			bad = fmt.Sprintf("%d statements, want %d", len(q.Statements), len(want))
+		default:
+			for k := range want {
+				if path, a, b := astx.Diff(astx.Denoted, want[k], q.Statements[k]); path != "" {
+					bad = fmt.Sprintf("statement %d differs at %s: %s vs %s", k, path, a, b)
+					break
+				}
+			}
+		}
+		if bad != "" {
+			return []ev.Finding{{Sig: "query-depends-on-the-call-before", Witness: wit, Detail: fmt.Sprintf("round %d: %s", round, bad), Case: c, Rank: len(good)}}
+		}
+	}
+	return nil
+}
+
 func init() {
 	register(&Check{ID: "C16", Run: c16run, Replay: func(raw json.RawMessage) []ev.Finding {
 		var probe map[string]json.RawMessage
 		if json.Unmarshal(raw, &probe) != nil {
 			return nil
+		}
+		if _, ok := probe["long"]; ok {
+			var c c16longCase
+			json.Unmarshal(raw, &c)
+			return c16longEval(c)
+		}
+		if _, ok := probe["after"]; ok {
+			var c c16afterCase
+			json.Unmarshal(raw, &c)
+			return c16afterEval(c)
 		}
 		if _, ok := probe["query"]; ok {
 			var c c16joinCase
@@ -291,6 +392,35 @@ func c16run(r *ev.Run) {
 		sets = []boundSet{{"struct<=3 x every gap that may hold whitespace x 28 substitutions", []int{3, 0, 0}}}
 	}
 	runGrammar(r, sets, c16gapBody)
+	// many statements in one query, and a good query after each kind of failing one (sequential: one caller)
+	for _, n := range []int{40, 400, 1200, 5000} {
+		for sp := range c16goodSeps {
+			for only := 0; only <= 3; only++ {
+				if only > 0 && sp > 1 {
+					continue
+				}
+				c := c16longCase{Long: n, Sep: sp, Only: only}
+				r.Eval()
+				r.State(astx.HashString(fmt.Sprint("LQ|", c)), true)
+				for _, f := range c16longEval(c) {
+					r.Report(f)
+				}
+			}
+		}
+	}
+	for a := range c16failing {
+		for g1 := range c16pool {
+			for _, good := range [][]int{{g1}, {g1, (g1 + 1) % len(c16pool)}} {
+				c := c16afterCase{After: a, Good: good}
+				r.Eval()
+				r.State(astx.HashString(fmt.Sprint("AF|", c)), true)
+				for _, f := range c16afterEval(c) {
+					r.Report(f)
+				}
+			}
+		}
+	}
+	r.Set("failing_texts_in_front", len(c16failing))
 	// statement separation
 	nsep := len(c16goodSeps) + len(c16badSeps)
 	runQ := func(c c16qCase) {
